@@ -697,17 +697,28 @@ func c12PreviousOutputPredicate(c *Ctx, call *ssa.Call) (bool, string) {
 	// every `true` result must come from a comma-ok lookup in a set...
 	var setAlloc *ssa.Alloc
 	okShape := false
+	// what the predicate can return: constants and membership tests (through the phi of `err == nil && set[key]`)
+	var results []ssa.Value
 	for _, r := range returnsOf(cl) {
-		v := r.Results[0]
+		if ph, isPhi := r.Results[0].(*ssa.Phi); isPhi {
+			results = append(results, ph.Edges...)
+		} else {
+			results = append(results, r.Results[0])
+		}
+	}
+	for _, v := range results {
 		if k, ok := v.(*ssa.Const); ok && k.Value != nil && k.Value.String() == "false" {
 			continue
 		}
-		ex, ok := v.(*ssa.Extract)
-		if !ok || ex.Index != 1 {
+		var lk *ssa.Lookup
+		if ex, ok := v.(*ssa.Extract); ok && ex.Index == 1 {
+			lk, _ = ex.Tuple.(*ssa.Lookup)
+		} else if l2, ok := v.(*ssa.Lookup); ok && !l2.CommaOk && strings.HasSuffix(l2.X.Type().String(), "]bool") {
+			lk = l2 // a set kept as map[string]bool
+		} else {
 			return false, "the skip predicate can return true other than by set membership: " + describe(v)
 		}
-		lk, ok := ex.Tuple.(*ssa.Lookup)
-		if !ok {
+		if lk == nil {
 			return false, "the skip predicate is not a set lookup"
 		}
 		// key: Abs(Position(f.Package).Filename) of the file parameter
@@ -815,7 +826,7 @@ func c12SetMembersOfAlloc(c *Ctx, al *ssa.Alloc) (bool, string) {
 	if ofn := resolveRole(c, genPkg, "outputFileName"); ofn != nil {
 		s := newSym(L, map[string]bool{})
 		t := strings.Join(s.evalFn(ofn, 0), "|")
-		if !strings.Contains(t, `"_band"`) || !strings.Contains(t, "path/filepath.Ext(param:") {
+		if !strings.Contains(t, "_band") || !strings.Contains(t, "path/filepath.Ext(param:") {
 			return false, "outputFileName is not <name>_band<ext>: " + t
 		}
 	}
@@ -947,7 +958,7 @@ func c12PreviousOutputFunc(c *Ctx, call *ssa.Call, pred *ssa.Function) (bool, st
 		}
 		if ofn := resolveRole(c, genPkg, "outputFileName"); ofn != nil {
 			t := strings.Join(newSym(L, map[string]bool{}).evalFn(ofn, 0), "|")
-			if !strings.Contains(t, `"_band"`) || !strings.Contains(t, "path/filepath.Ext(param:") {
+			if !strings.Contains(t, "_band") || !strings.Contains(t, "path/filepath.Ext(param:") {
 				return false, "outputFileName is not <name>_band<ext>: " + t
 			}
 		}
